@@ -96,7 +96,7 @@ fn run_meta(id: u32, params: &Arc<Vec<Column>>, cols: &Arc<Vec<Column>>, st: &mu
     if !o.res.is_ok() {
         return Err(Violation::new("result-not-ok", format!("run_on returned {}", o.res.short())));
     }
-    let d = decode_all(&o.sim.out, &conv, &s.last_seq, 4, false).map_err(|e| Violation::new("reply-decode", e))?;
+    let d = decode_all(delivered(&o), &conv, &s.last_seq, 4, false).map_err(|e| Violation::new("reply-decode", e))?;
     match &d.replies[0][..] {
         [Unit::PrepareOk { id: gid, params: gp, cols: gc, .. }] => {
             if *gid != id {
@@ -487,7 +487,7 @@ impl Family for MetaHistories {
         if !o.res.is_ok() {
             return Err(Violation::new("result-not-ok", format!("run_on returned {}", o.res.short())));
         }
-        let d = decode_all(&o.sim.out, &conv, &s.last_seq, conv.cmds.len(), false).map_err(|e| Violation::new("reply-decode", e))?;
+        let d = decode_all(delivered(&o), &conv, &s.last_seq, conv.cmds.len(), false).map_err(|e| Violation::new("reply-decode", e))?;
         let check_rs = |u: &Unit, want: &Arc<Vec<Column>>, what: &str| -> Result<(), Violation> {
             match u {
                 Unit::ResultSet { cols, end: Ok(_), .. } if !want.is_empty() => check_defs(cols, want, what),
